@@ -143,6 +143,8 @@ func (o op) String() string {
 		return fmt.Sprintf("xrCompose(%s)", o.Name)
 	case "clearResolvedRef":
 		return fmt.Sprintf("clearResolvedRef(%s)", o.Name)
+	case "retargetUsage":
+		return fmt.Sprintf("retargetUsage(%s->%s)", o.Name, o.Version)
 	}
 	s := fmt.Sprintf("%s(%s@%s", o.Kind, o.Name, o.Version)
 	if o.Policy != "" {
@@ -182,6 +184,15 @@ func (e *env) do(c *sim.Client, o op) error {
 			return nil
 		}
 		unstructured.RemoveNestedField(u.Object, "spec", "of", "resourceRef")
+		return c.Update(bg, u)
+	case "retargetUsage":
+		// the user edits spec.of.resourceRef.name of an existing Usage (spec.of is mutable): from
+		// then on the Usage names another resource. o.Version carries the new name.
+		u := &unstructured.Unstructured{Object: e.w.GetObj(sim.Key{Group: usageGroup, Kind: "Usage", Name: o.Name})}
+		if u.Object == nil {
+			return nil
+		}
+		_ = unstructured.SetNestedField(u.Object, o.Version, "spec", "of", "resourceRef", "name")
 		return c.Update(bg, u)
 	case "deleteUsage", "deleteThing":
 		u := &unstructured.Unstructured{}
@@ -283,6 +294,26 @@ func scenarios() []scenario {
 				sOp(dt("t1", "v1", pol)),
 			}})
 		}
+	}
+	// A2: a ready Usage is edited to name another resource (spec.of is mutable). Once the controller
+	// has reconciled the edited Usage, the newly named resource is protected like any other. Fault
+	// free only: a reconcile that fails right after the edit leaves the old Ready condition in
+	// place, which the property does not speak about.
+	for i, withBy := range []bool{false, true} {
+		uv := []string{"v1beta1", "v1alpha1"}[i%2]
+		u := usageSpec{Name: "u1", Version: uv, Of: ref("t1", "v1")}
+		if withBy {
+			by := ref("t3", "v2")
+			u.By = &by
+		}
+		out = append(out, scenario{Name: fmt.Sprintf("retarget/by=%v", withBy), Things: baseThings, faultFreeOnly: true, Steps: []step{
+			sOp(cu(u)), sRec("u1"), sRec("u1"),
+			sOp(dt("t1", "v1", "")),
+			sOp(op{Kind: "retargetUsage", Name: "u1", Version: "t2"}), sRec("u1"), sRec("u1"), sRec("u1"),
+			sOp(dt("t2", "v1", "")), sOp(dtAll("t2", "v1", "Background")), sOp(dtDry("t2", "v1", "Foreground")),
+			sOp(du("u1", uv, "")), sRec("u1"), sGC(), sRec("u1"),
+			sOp(dt("t2", "v1", "")),
+		}})
 	}
 	// C: two and three Usages sharing one used resource, through different served versions
 	u1 := usageSpec{Name: "u1", Version: "v1beta1", Of: ref("t1", "v1")}
